@@ -15,7 +15,7 @@ def registry():
     reg = {}
     import checks_design
     reg.update(checks_design.CHECKS)
-    for mod in ("checks_blocks", "checks_cnf", "checks_misc", "checks_session"):
+    for mod in ("checks_blocks", "checks_cnf", "checks_misc", "checks_comb", "checks_session", "checks_text", "checks_output"):
         try:
             m = __import__(mod)
             reg.update(m.CHECKS)
